@@ -1,6 +1,7 @@
 package props
 
 import (
+	"verif/sim/chain"
 	"verif/sim/core"
 	"verif/sim/pool"
 )
@@ -10,7 +11,12 @@ func init() {
 		ID: "C11", Level: "exploration",
 		Batches: []core.Batch{{
 			Name: "pool", Engine: pool.Engine{}, Quick: 300000, Thorough: 4000000,
-			Rule: "a run is non-trivial when the pool accepted at least three commitments and the round was processed at least once",
+			Rule:   "a run is non-trivial when the pool accepted at least three commitments and the round was processed at least once",
+			Weight: 2,
+		}, {
+			Name: "approunds", Engine: chain.Engine{Prop: "C11"}, Quick: 512, Thorough: 6000,
+			Rule:   "a run is non-trivial when at least three heights were produced, the roothash application accepted at least two executor-commit transactions and at least one runtime round was ended by votes or by the round timer (finalized or failed; epoch-transition blocks do not count)",
+			Weight: 3,
 		}},
 		Real: []string{
 			"roothash/api/commitment: VerifyExecutorCommitment, Pool.AddVerifiedExecutorCommitment, Pool.ProcessCommitments, SchedulerCommitment votes, executor commitment signing/verification",
